@@ -77,6 +77,12 @@ def witness_family(n, seed):
             for m in range(0, len(hk) + 1):
                 g = (ub @ hk[:m].T).T + noise / max(scale, 1e-3) * rng.standard_normal((m, 3)) * 0.5
                 yield a * (1 + 0.01 * noise), g, 0.1
+    # normal equations solvable (the rounded hkl span 3D) while the fitted UB is singular: coplanar g-vectors scored with a tilted matrix
+    for tilt in (0.45, 0.3):
+        a = np.array([[4.0, 0.0, 0.0], [0.0, 4.0, 0.0], [tilt * 4.0, tilt * 4.0, 4.0]])
+        gxy = np.array([[0.25, 0, 0], [0, 0.25, 0], [0.25, 0.25, 0], [0.5, 0.25, 0], [0.25, -0.25, 0], [0.5, 0.5, 0], [0.75, 0.25, 0], [-0.25, 0.5, 0]])
+        yield a, gxy, 0.49
+        yield a, gxy[:5], 0.49
 
 # ------------------------------------------------------------------------------------------------ harnesses
 def main():
@@ -181,15 +187,23 @@ def main():
                 CTX.hyp += [tol > 0, tol <= Fraction(1, 2)]
                 uo = mkobj(it, "ubi", list(U), "double", "inout"); go = mkobj(it, "gv", list(G), "double", "const")
                 no = outobj(it, "n", 1, "i32"); so = outobj(it, "sumdrlv2", 1, "double")
+                def find_R(it_):
+                    """the 3x3 accumulator named R of the innermost frame that has one (directly, or through a pointer parameter of a helper)"""
+                    for fr_ in reversed(it_.stack):
+                        o = fr_.get("R")
+                        if o is None: continue
+                        if o.size == 72: return o
+                        v = o.mem.get(0)
+                        if v and isinstance(v[0], Ptr) and v[0].obj is not None and v[0].off == 0 and v[0].obj.size == 72: return v[0].obj
+                    raise symcore.Inconclusive("cut point: no 3x3 accumulator named R is live at the first inverse3x3 call (the kernel was restructured beyond what the staging recognises)")
                 def hook(it_, a):
-                    caller = it_.stack[-1]; mobj = a[0].obj
-                    if any(x is None or x is UNINIT for x in snapshot(mobj, 9) + (snapshot(caller["R"], 9) if it_.ncut == 0 else [])):
+                    mobj = a[0].obj; Robj = find_R(it_) if it_.ncut == 0 else None
+                    if any(x is None or x is UNINIT for x in snapshot(mobj, 9) + (snapshot(Robj, 9) if it_.ncut == 0 else [])):
                         it_.events.append(("uninitialised-read", "matrix passed to inverse3x3 (or R) was never written", None)); it_.ncut += 1; return
                     if it_.ncut == 0:
-                        it_.cut["R"] = snapshot(caller["R"], 9); it_.cut["H"] = snapshot(mobj, 9)
+                        it_.cut["R"] = snapshot(Robj, 9); it_.cut["H"] = snapshot(mobj, 9)
                         it_.cut["Rf"] = [z3.Real("Rf%d" % i) for i in range(9)]; it_.cut["Hf"] = [z3.Real("Hf%d" % i) for i in range(9)]
-                        it_.cut["UB0"] = snapshot(caller["UB"], 9)
-                        for i in range(9): caller["R"].mem[8 * i] = (it_.cut["Rf"][i], 8); mobj.mem[8 * i] = (it_.cut["Hf"][i], 8)
+                        for i in range(9): Robj.mem[8 * i] = (it_.cut["Rf"][i], 8); mobj.mem[8 * i] = (it_.cut["Hf"][i], 8)
                     else:
                         it_.cut["UB"] = snapshot(mobj, 9); it_.cut["UBf"] = [z3.Real("UBf%d" % i) for i in range(9)]
                         for i in range(9): mobj.mem[8 * i] = (it_.cut["UBf"][i], 8)
@@ -244,7 +258,6 @@ def main():
                 if it.ncut == 2:
                     UBdef, UBf = it.cut["UB"], it.cut["UBf"]; dU = zdet(UBf); aU = zadj(UBf)
                     goals.append(("second inverse only if det H != 0", dH != 0))
-                    goals.append(("UB starts from zero", z3.BoolVal(all((not isinstance(x, z3.ExprRef)) and x == 0 for x in it.cut["UB0"]))))
                     for i in range(3):
                         for j in range(3):
                             goals.append(("UB.H=R [%d%d]" % (i, j), R_(UBdef[3 * i + j]) * dH == sum(Rf[3 * i + l] * aH[3 * l + j] for l in range(3))))
